@@ -36,6 +36,10 @@ func main() {
 	r.Extra("supplementary_checks", map[string]string{
 		"closed_connection_scenarios": "3..4 subscribed connections, one closes (FIN/RST); after hc logged the close and 50 round trips on other connections completed, a change must no longer be addressed " +
 			"to the closed connection's address in hc's debug log ('<addr> <- EVENT/1.0', validated against the deliveries seen on the sockets); up to 3 attempts; sig closed:session-kept",
+		"overlapping_changes": "3 subscribed connections + 1 that subscribed to nothing; a first change (application or a controller) is held at the conn.write.enter hook point of its 1st..3rd notification write " +
+			"(before the connection's write lock); meanwhile a second change of the same characteristic (2 of 3 scenarios) or of another one is made by the application or another controller and runs to completion; then the first " +
+			"fan-out continues. Per subscribed connection: one EVENT per foreign change (counted; overlap:event:missing / surplus), values among those written, the final value notified to everybody but its writer " +
+			"(overlap:final-value-never-notified), nothing for the unsubscribed connection",
 		"concurrent_variant": "3..5 stable connections subscribed to every written characteristic, 2..5 remote writers + 2..4 application goroutines on DISTINCT characteristics with unique values (20..59 changes each), " +
 			"1 connection toggling a subscription on a characteristic nobody changes, 3 goroutines opening short-lived connections that subscribe to everything and close (FIN/RST) during the fan-out; final fence; " +
 			"offline: each stable connection has every foreign change exactly once, none of its own, nothing else; short-lived connections: only real changes, at most once; a panic of the fan-out is a violation (notify:panic:<site>); " +
@@ -74,6 +78,10 @@ func main() {
 	close(ch)
 	wg.Wait()
 
+	// ---- overlapping changes (overlap.go): serial, the hold point is a global hook
+	nOv := r.Pick(24, 300)
+	overlapScenarios(r, nOv)
+
 	// ---- concurrent variant: plain build in this process, then the same workload under the race detector
 	nc := r.Pick(6, 60)
 	mergeConc(r, concRounds(r.Seed, nc, base, 3), "plain")
@@ -97,6 +105,9 @@ func main() {
 	r.Floor("distinct subscription states", r.DistinctN("subscription_state"), 200*scale)
 	r.Floor("closed scenarios", int(r.Counter("closed_scenarios")), nClosed*9/10)
 	r.Floor("closed subscribed connections checked", int(r.Counter("closed_subscribed_connection_no_longer_addressed"))+r.ViolationCount(), nClosed/2)
+	r.Floor("overlap scenarios", int(r.Counter("overlap_scenarios")), nOv*9/10)
+	r.Floor("overlap holds reached", int(r.Counter("overlap_holds_reached")), nOv*8/10)
+	r.Floor("overlap shapes", r.DistinctN("overlap_shape"), 8)
 	r.Floor("concurrent rounds (plain)", int(r.Counter("concurrent_plain_rounds")), nc)
 	r.Floor("concurrent rounds (race)", int(r.Counter("race_child_rounds")), nr)
 	r.Floor("concurrent events matched", int(r.Counter("concurrent_plain_events_matched")), 1000)
